@@ -97,6 +97,29 @@ def _http_error(h, p):
     raise web.HTTPError(500, reason=p)
 
 
+def _http_error_assigned(h, p):
+    # HTTPError.reason is a documented public attribute: set after construction, the constructor never saw it
+    e = web.HTTPError(500)
+    e.reason = p
+    raise e
+
+
+class _QuotaError(web.HTTPError):
+    def __init__(self, detail):
+        super().__init__(429)
+        self.reason = detail
+
+
+def _http_error_subclass(h, p):
+    raise _QuotaError(p)
+
+
+def _send_error_exc_info_assigned(h, p):
+    e = web.HTTPError(503)
+    e.reason = p
+    h.send_error(503, exc_info=(type(e), e, None))
+
+
 def _send_error_exc_info(h, p):
     # what RequestHandler._handle_request_exception does, done by the application itself
     e = web.HTTPError(503, reason=p)
@@ -119,6 +142,12 @@ PATHS = {
     "set_header.name.bytes": dict(pt="bytes", role="name", call=lambda h, p: h.set_header(p, "v"), intend=_name),
     "set_status.reason": dict(pt="str", role="reason", call=lambda h, p: h.set_status(200, p), intend=lambda p: []),
     "HTTPError.reason": dict(pt="str", role="reason", call=_http_error, intend=lambda p: [], ok_status=500, error_path=True),
+    "HTTPError.reason.assigned": dict(pt="str", role="reason", call=_http_error_assigned, intend=lambda p: [], ok_status=500,
+                                      error_path=True),
+    "HTTPError.subclass.reason": dict(pt="str", role="reason", call=_http_error_subclass, intend=lambda p: [], ok_status=429,
+                                      error_path=True),
+    "send_error.exc_info.reason.assigned": dict(pt="str", role="reason", call=_send_error_exc_info_assigned, intend=lambda p: [],
+                                                ok_status=503, error_path=True),
     # the application calls send_error itself (not via a raised HTTPError): no exception, the error response is the answer
     "send_error.reason": dict(pt="str", role="reason", call=lambda h, p: h.send_error(429, reason=p), intend=lambda p: [],
                               ok_status=429, error_path=True),
